@@ -277,3 +277,41 @@ def remove_ids(root, ids):
         m["children"] = [rec(c) for c in n.get("children", []) if c.get("id") not in ids]
         return m
     return rec(_c.deepcopy(root))
+
+
+# ---- paint attributes (presentation attributes only; style sheets are gen/styles.py) ---------------------------------
+
+COLOURS = ["red", "#00f", "#12ab34", "rgb(10,200,30)", "rgb(10%, 20%, 30%)", "none", "black", "hsl(120, 50%, 40%)", "#fa08", "Blue", "currentColor", "rgba(1,2,3,0.5)"]
+
+
+def add_paint(R, root, prob=0.3):
+    """presentation attributes fill / stroke / stroke-width / opacities / color on random elements"""
+    for n in walk(root):
+        if n["tag"] == "defs":
+            continue
+        a = n.setdefault("attrs", {})
+        if R.random() < prob:
+            a["fill"] = R.choice(COLOURS)
+        if R.random() < prob:
+            a["stroke"] = R.choice(COLOURS)
+        if R.random() < prob:
+            a["stroke-width"] = R.choice(["2", "0.5", "3px", "1pt", "0", "4.25"])
+        if R.random() < prob / 3:
+            a["fill-opacity"] = R.choice(["0.5", "1", "0", ".25"])
+        if R.random() < prob / 3:
+            a["stroke-opacity"] = R.choice(["0.5", "1", "0", ".75"])
+        if R.random() < prob / 3:
+            a["color"] = R.choice(["green", "#abc", "rgb(1,2,3)"])
+    return root
+
+
+def subtree_ids(n):
+    return {m["id"] for m in walk(n) if m.get("id")}
+
+
+def parent_map(root):
+    pm = {}
+    for n in walk(root):
+        for c in n.get("children", []):
+            pm[c["id"]] = n
+    return pm
